@@ -93,7 +93,10 @@ def builtin_glue(needs_module: str) -> Callable[[InstallGlueFn], InstallGlueFn]:
             and "sphinx" not in sys.modules
             and not hasattr(module, "_stackscope_install_glue_")
         ):
-            fn()
+            try:
+                fn()
+            except Exception as exc:
+                warn_glue_failed("stackscope-builtin", needs_module, exc)
         else:
             # Not loaded yet, or it brings its own glue, which takes
             # precedence: let add_glue_as_needed() sort that out
@@ -101,6 +104,16 @@ def builtin_glue(needs_module: str) -> Callable[[InstallGlueFn], InstallGlueFn]:
         return fn
 
     return decorate
+
+
+def warn_glue_failed(kind: str, module_name: str, exc: Exception) -> None:
+    exc_str = "".join(traceback.format_exception_only(type(exc), exc)).strip()
+    warnings.warn(
+        f"Failed to initialize {kind} glue for {module_name}: {exc_str}. "
+        "Some tracebacks may be presented less crisply or with "
+        "missing information.",
+        RuntimeWarning,
+    )
 
 
 glue_lock = threading.Lock()
@@ -140,15 +153,7 @@ def add_glue_as_needed(*, _sys_modules_len_cache: list[int] = [0]) -> None:
                 kind = (
                     "module-provided" if module_fn is not None else "stackscope-builtin"
                 )
-                exc_str = "".join(
-                    traceback.format_exception_only(type(exc), exc)
-                ).strip()
-                warnings.warn(
-                    f"Failed to initialize {kind} glue for {module_name}: {exc_str}. "
-                    "Some tracebacks may be presented less crisply or with "
-                    "missing information.",
-                    RuntimeWarning,
-                )
+                warn_glue_failed(kind, module_name, exc)
         # Only update the length cache if we visited every module (rather
         # than bailing out with an exception)
         _sys_modules_len_cache[0] = len(module_names)
